@@ -1,12 +1,18 @@
 /-
   Props/C03.lean — edits to a decoded map survive encode → decode.
-  First layer: a metadata text value that is its own `trim` (no surrounding whitespace) and contains no
-  line break comes back exactly from the line the encoder writes for it, whatever else it contains
-  (colons, `//`, brackets, header-like or version-like text).
+
+  An edit through the public fields replaces a section record `s` by some `ed s`. Proved here, per record section:
+  if the edited record is representable, the block the encoder writes for it reads back as exactly the edited record
+  (`edit_survives_*`), and any observation `g` the edit did not change reads as it does for the unedited record
+  (`edit_frame_*`). For `[Metadata]` the two are also stated field by field (`edit_survives_metadata`,
+  `edit_frame_metadata`: ten fields, any one edited, the other nine unchanged). `[Metadata]` and `[Colours]` need no
+  hypothesis on numbers; `[Editor]`, `[Difficulty]`, `[General]`, `[Events]` hold for every lawful number codec.
+  File level: `edit_survives_records`. Not covered (evaluated by the `edit` oracle / correspondence): the frame
+  extended to the timing and hit-object views (`edit_frame_objects_statement`).
 -/
 import RosuModel.Props.C02
 namespace Rosu.C03
-open Rosu Encode
+open Rosu Encode EncodeLines C11
 
 /-- a metadata text the format can represent: equal to its own trim, no line feed. -/
 def RepresentableText (v : Str) : Prop := trim v = v ∧ '\n' ∉ v
@@ -29,5 +35,132 @@ theorem artist_line_sets_artist (st : Metadata) (v : Str) (hv : RepresentableTex
 
 example : RepresentableText (str "Re:Zero // [General] osu file format v9") := by
   constructor <;> decide
+
+/-! ### [Metadata], field by field -/
+
+/-- **edit_survives (metadata)**: after setting any one of the ten metadata fields of a representable record to a
+representable value (any self-trimmed single-line text — colons, `//`, brackets, header- or version-like text, the
+empty text; a positive `i32` id), the encoded block reads back with exactly that value in that field. -/
+theorem edit_survives_metadata (d : Metadata) (hd : RtMetadata.RepMetadata d) (e : RtMetadata.MetaEdit) (he : e.Representable) :
+    RtMetadata.getField e.field (RtMetadata.roundtrip (e.apply d)) = e.value :=
+  RtMetadata.metadata_edit_survives d hd e he
+
+/-- **edit_frame (metadata)**: … and each of the other nine fields reads exactly as in the round trip of the unedited record. -/
+theorem edit_frame_metadata (d : Metadata) (hd : RtMetadata.RepMetadata d) (e : RtMetadata.MetaEdit) (he : e.Representable)
+    (f : RtMetadata.MetaField) (hf : f ≠ e.field) :
+    RtMetadata.getField f (RtMetadata.roundtrip (e.apply d)) = RtMetadata.getField f (RtMetadata.roundtrip d) :=
+  RtMetadata.metadata_edit_frame d hd e he f hf
+
+example : RtMetadata.getField .title (RtMetadata.roundtrip ((RtMetadata.MetaEdit.title (str "Re:Zero")).apply RtMetadata.sample)) =
+    .inl (str "Re:Zero") :=
+  edit_survives_metadata _ (by
+    refine ⟨?_, ?_, ?_, ?_, ?_, ?_, ?_, ?_, ?_, ?_⟩ <;> first | decide | (constructor <;> decide)) (.title (str "Re:Zero"))
+    (by constructor <;> decide)
+
+/-! ### the other record sections: any edit to a representable record -/
+
+/-- **[Colours]** an edit whose result is representable and opaque (alpha 255, as the property requires) reads back
+exactly; observations the edit did not change (on the alpha-255 view) are unchanged. -/
+theorem edit_survives_colours (c' : Colors) (h' : RtColours.RepColors c')
+    (h1 : ∀ x ∈ c'.customComboColors, x.a = 255) (h2 : ∀ x ∈ c'.customColors, x.color.a = 255) :
+    runSection parseColors Colors.default (RtColours.decodedLines c') = c' :=
+  C02.colours_block_roundtrip_decoded c' h' h1 h2
+
+theorem edit_frame_colours {α : Type} (c c' : Colors) (h : RtColours.RepColors c) (h' : RtColours.RepColors c')
+    (g : Colors → α) (hg : g (RtColours.preservedColors c') = g (RtColours.preservedColors c)) :
+    g (runSection parseColors Colors.default (RtColours.decodedLines c')) =
+      g (runSection parseColors Colors.default (RtColours.decodedLines c)) := by
+  rw [(C02.colours_block_roundtrip c h).2, (C02.colours_block_roundtrip c' h').2, hg]
+
+section
+variable {F P : Type} [Scalar F] [Scalar P] {RF : F → Prop} {RP : P → Prop}
+
+/-- **[Editor]** bookmarks (any `i32` list), distance spacing, beat divisor, grid size, timeline zoom. -/
+theorem edit_survives_editor (LF : CodecLaws F RF) (e' : Editor F) (h' : RtEditor.RepEditor RF e') :
+    runSection parseEditor Editor.default (RtEditor.decodedLines e') = e' :=
+  (C02.editor_block_roundtrip LF e' h').2
+
+theorem edit_frame_editor {α : Type} (LF : CodecLaws F RF) (e e' : Editor F) (h : RtEditor.RepEditor RF e)
+    (h' : RtEditor.RepEditor RF e') (g : Editor F → α) (hg : g e' = g e) :
+    g (runSection parseEditor Editor.default (RtEditor.decodedLines e')) =
+      g (runSection parseEditor Editor.default (RtEditor.decodedLines e)) := by
+  rw [edit_survives_editor LF e h, edit_survives_editor LF e' h', hg]
+
+/-- **[Difficulty]** the four `f32` values and the two clamped `f64` values (inside their clamps). -/
+theorem edit_survives_difficulty (LF : CodecLaws F RF) (LP : CodecLaws P RP) (d' : Difficulty F P)
+    (h' : RtDifficulty.RepDifficulty RF RP d') :
+    (runSection parseDifficulty (DifficultyState.create : DifficultyState F P) (RtDifficulty.decodedLines d')).difficulty = d' :=
+  (C02.difficulty_block_roundtrip LF LP d' h').2
+
+theorem edit_frame_difficulty {α : Type} (LF : CodecLaws F RF) (LP : CodecLaws P RP) (d d' : Difficulty F P)
+    (h : RtDifficulty.RepDifficulty RF RP d) (h' : RtDifficulty.RepDifficulty RF RP d') (g : Difficulty F P → α) (hg : g d' = g d) :
+    g (runSection parseDifficulty (DifficultyState.create : DifficultyState F P) (RtDifficulty.decodedLines d')).difficulty =
+      g (runSection parseDifficulty (DifficultyState.create : DifficultyState F P) (RtDifficulty.decodedLines d)).difficulty := by
+  rw [edit_survives_difficulty LF LP d h, edit_survives_difficulty LF LP d' h', hg]
+
+/-- **[Events]** background file and breaks. -/
+theorem edit_survives_events (LF : CodecLaws F RF) (e' : Events F) (h' : RtEvents.RepEvents RF e') :
+    runSection parseEvents (Events.default : Events F) (RtEvents.decodedLines e') = e' :=
+  (C02.events_block_roundtrip LF e' h').2
+
+theorem edit_frame_events {α : Type} (LF : CodecLaws F RF) (e e' : Events F) (h : RtEvents.RepEvents RF e)
+    (h' : RtEvents.RepEvents RF e') (g : Events F → α) (hg : g e' = g e) :
+    g (runSection parseEvents (Events.default : Events F) (RtEvents.decodedLines e')) =
+      g (runSection parseEvents (Events.default : Events F) (RtEvents.decodedLines e)) := by
+  rw [edit_survives_events LF e h, edit_survives_events LF e' h', hg]
+
+/-- **[General]** audio file, lead-in, preview time, countdown, stack leniency, mode, flags, positive countdown
+offset: the edited record reads back on the preserved view (ids ≤ 0 / `special_style` outside mania are not
+representable edits, as in the property). -/
+theorem edit_survives_general (LI : IntPrintLaw F) (LP : CodecLaws P RP) (g' : GeneralState F P) (ss : SampleBank)
+    (h' : RtGeneral.RepGeneral RP g') :
+    runSection RtGeneral.generalStep (GeneralState.default : GeneralState F P) (RtGeneral.decodedLines g' ss) =
+      RtGeneral.preservedGeneral g' ss :=
+  (C02.general_block_roundtrip LI LP g' ss h').2
+
+theorem edit_frame_general {α : Type} (LI : IntPrintLaw F) (LP : CodecLaws P RP) (g g' : GeneralState F P) (ss ss' : SampleBank)
+    (h : RtGeneral.RepGeneral RP g) (h' : RtGeneral.RepGeneral RP g') (obs : GeneralState F P → α)
+    (hobs : obs (RtGeneral.preservedGeneral g' ss') = obs (RtGeneral.preservedGeneral g ss)) :
+    obs (runSection RtGeneral.generalStep (GeneralState.default : GeneralState F P) (RtGeneral.decodedLines g' ss')) =
+      obs (runSection RtGeneral.generalStep (GeneralState.default : GeneralState F P) (RtGeneral.decodedLines g ss)) := by
+  rw [edit_survives_general LI LP g ss h, edit_survives_general LI LP g' ss' h', hobs]
+
+/-- non-vacuity (toy codec): setting the preview time of the sample record. -/
+def editedSample : GeneralState ZC ZC := { RtGeneral.sample with previewTime := -5 }
+
+theorem editedSample_rep : RtGeneral.RepGeneral ZC.Rep editedSample :=
+  ⟨RtGeneral.sample_rep.audioFile, RtGeneral.sample_rep.audioLeadIn, by decide, RtGeneral.sample_rep.stackLeniency, by decide⟩
+
+example : (runSection RtGeneral.generalStep (GeneralState.default : GeneralState ZC ZC)
+    (RtGeneral.decodedLines editedSample SampleBank.soft)).previewTime = -5 :=
+  congrArg (·.previewTime) (edit_survives_general ZC.intPrintLaw ZC.laws editedSample SampleBank.soft editedSample_rep)
+
+variable [Cvt P F] [Trig F] [Trig P]
+
+/-- **edit_survives_records** — file level: whatever edits turned a decoded map into `m'`, if the record sections
+of `m'` are representable then encoding `m'` and decoding the bytes again shows exactly the edited record fields
+(preserved view), under the codec laws and the list-block shape assumption of C04. Together with
+`C02.records_roundtrip` for the unedited map this is also the frame clause for the record fields. -/
+theorem edit_survives_records (LF : CodecLaws F RF) (LP : CodecLaws P RP) (LI : IntPrintLaw F) (m' : Beatmap F P)
+    (hm : RtFile.RepRecords RF RP m') (t : Str) (T H : List Str) (h : encode m' = .ok t)
+    (hT : encodeTimingPoints m' = .ok (unlines (str "[TimingPoints]" :: T)))
+    (hH : encodeHitObjects m' = .ok (unlines (str "[HitObjects]" :: H)))
+    (sT : RtFile.ListBlockShape T) (sH : RtFile.ListBlockShape H) :
+    ∃ st : BeatmapState F P, decodeBytes beatmapDecoder (utf8Encode t) = .ok st ∧
+      RtFile.recView st = RtFile.preservedRecords m' :=
+  RtFile.file_record_roundtrip LF LP LI m' hm t T H h hT hH sT sH
+
+end
+
+/-- the remainder of C03, not yet a theorem: an edit of a record field other than mode, slider multiplier and tick
+rate leaves the re-decoded hit objects and timing points as they are without the edit. -/
+def edit_frame_objects_statement : Prop :=
+  ∀ (F P : Type) [Scalar F] [Scalar P] [Cvt P F] [Trig F] [Trig P] (RF : F → Prop) (RP : P → Prop),
+    CodecLaws F RF → CodecLaws P RP →
+    ∀ (m m' : Beatmap F P) (t t' : Str) (st st' : BeatmapState F P),
+      m'.hitObjects.length = m.hitObjects.length → m'.general.mode = m.general.mode → m'.difficulty.sliderMultiplier = m.difficulty.sliderMultiplier →
+      encode m = .ok t → encode m' = .ok t' →
+      decodeBytes beatmapDecoder (utf8Encode t) = .ok st → decodeBytes beatmapDecoder (utf8Encode t') = .ok st' →
+      st'.hitObjects.core.hitObjects.length = st.hitObjects.core.hitObjects.length
 
 end Rosu.C03
